@@ -23,9 +23,16 @@ def match(pid: str, signature: dict, entries=None):
         if e.get("property") != pid or e.get("status") != "open":
             continue
         sig = e.get("signature", {})
-        if sig and all(signature.get(k) == v for k, v in sig.items()):
+        if sig and all(_eq(signature.get(k), v) for k, v in sig.items()):
             return e
     return None
+
+
+def _eq(actual, wanted):
+    """Entry value {"any_of": [...]} matches any listed value; everything else must be equal."""
+    if isinstance(wanted, dict) and "any_of" in wanted:
+        return actual in wanted["any_of"]
+    return actual == wanted
 
 
 def write_replay(pid: str, viol: dict) -> str:
